@@ -1,6 +1,7 @@
 package drivers
 
 import (
+	"fmt"
 	"path/filepath"
 
 	"gosym/corpus"
@@ -120,4 +121,39 @@ func PrepareC07(ctx *Ctx) (*Prepared, error) {
 
 func PrepareC08(ctx *Ctx) (*Prepared, error) {
 	return prepareCodec(ctx, codecSpec{profile: "lite", harnesses: []string{"VH_C08W", "VH_C08R"}})
+}
+
+// optionSets enumerates generator option combinations: quick = base, each
+// single option, all five; thorough = all 32.
+func optionSets(tier string) []OptSet {
+	mk := func(bits int) OptSet {
+		o := OptSet{Unsafe: bits&1 != 0, Shared: bits&2 != 0, Tags: bits&4 != 0, Private: bits&8 != 0, PtrRecv: bits&16 != 0}
+		o.Name = fmt.Sprintf("o%02d", bits)
+		return o
+	}
+	if tier == "thorough" {
+		var out []OptSet
+		for b := 0; b < 32; b++ {
+			out = append(out, mk(b))
+		}
+		return out
+	}
+	return []OptSet{mk(0), mk(1), mk(2), mk(4), mk(8), mk(16), mk(31)}
+}
+
+// PrepareC09: the reference-codec check of C03 under every option set (all
+// sets agree with the same reference, hence with each other).
+func PrepareC09(ctx *Ctx) (*Prepared, error) {
+	p, err := prepareCodec(ctx, codecSpec{profile: "lite", perJob: 6, harnesses: []string{"VH_C03"}, opts: optionSets(ctx.Tier),
+		filter: func(p *corpus.Pkg) bool {
+			if ctx.Tier == "thorough" {
+				return !p.Deep || p.Leaf == "int32" || p.Leaf == "string"
+			}
+			return !p.Deep && (p.Context == "struct" || p.Context == "message" || p.Leaf == "int32" || p.Leaf == "Msg")
+		}})
+	if p != nil {
+		p.Bounds["option_sets"] = len(optionSets(ctx.Tier))
+		p.Bounds["options"] = "GenerateUnsafeMethods, SharedMemoryStrings, GenerateFieldTags, PrivateDefinitions, AlwaysUsePointerReceivers"
+	}
+	return p, err
 }
